@@ -48,7 +48,7 @@ ATOM_SRC = {
 }
 OP_SRC = {
     "Inv": "Inv[%s]", "Co": "Co[%s]", "Contra": "Contra[%s]", "VarTuple": "Tuple[%s, ...]",
-    "Opt": "Optional[%s]", "Seq": "Sequence[%s]", "PG": "PG[%s]", "TypeOf": "Type[%s]",
+    "Opt": "Optional[%s]", "Seq": "Sequence[%s]", "PG": "PG[%s]", "PContra": "PContra[%s]", "TypeOf": "Type[%s]",
     "Tuple2": "Tuple[%s, %s]", "Tuple3": "Tuple[%s, %s, %s]",
     "TuplePre": "Tuple[%s, Unpack[Tuple[%s, ...]]]",
     "FnPos": "Callable[[%s], %s]", "FnNamed": "Callable[[Arg(%s, 'x')], %s]",
@@ -59,7 +59,7 @@ OP_SRC = {
 }
 # names the fixed part of the generated module defines (everything a term may mention)
 PLAIN_ATOMS = {"A", "B", "C", "D", "E", "object", "int", "str", "float", "bool", "P", "ImplA", "ImplB", "CoB",
-               "Col", "TD1", "TD2", "NT", "T", "TB", "TV", "Rec"}
+               "Col", "TD1", "TD2", "NT", "T", "TB", "TV", "Rec", "Rec2", "PRec", "ImplRec"}
 
 Term = dict  # {"op": str, "args": [Term, ...]}
 
@@ -122,6 +122,8 @@ class ImplB:
     def meth(self) -> B: raise NotImplementedError
 class PG(Protocol[T_co]):
     def get(self) -> T_co: ...
+class PContra(Protocol[T_contra]):
+    def put(self, x: T_contra) -> None: ...
 class P2(Protocol):
     def m(self, x: int) -> int: ...
 class Impl2:
@@ -141,6 +143,11 @@ class NT(NamedTuple):
     b: int
 
 Rec = Union[int, List["Rec"]]
+Rec2 = Union[int, List["Rec2"]]
+class PRec(Protocol):
+    def nxt(self) -> "PRec": ...
+class ImplRec:
+    def nxt(self) -> "ImplRec": raise NotImplementedError
 fin: Final = 1
 
 class Scope(Generic[T, TB, TV]):
@@ -171,6 +178,7 @@ class World:
         self.decls = declarations(decl)
         self.cache_dir = os.path.join(scratch("c08-cache-"), "cache")
         self.builds = 0
+        self.ignored_errors = 0
         self.last_result: Any = None
 
     def build(self, sources: list[str]) -> tuple[list[Any], Any]:
@@ -191,8 +199,12 @@ class World:
             r = build.build([BuildSource("c08uni.py", "c08uni", src)], o)
         except Exception as e:  # CompileError etc.
             raise MachineryError("build of the universe module failed: %r" % (e,))
-        if r.errors:
-            raise MachineryError("the universe module has errors: %s" % r.errors[:5])
+        # the module is only a carrier of annotations: a complaint about an annotation (or anything that
+        # stops the build) is a broken harness; other diagnostics (possible on a modified mypy) are noted
+        fatal = [e for e in r.errors if re.search(r"\[(valid-type|name-defined|type-arg|misc|syntax|type-var|attr-defined|import[-a-z]*)\]|: error: Invalid|: error: Name ", e)]
+        if fatal:
+            raise MachineryError("the universe module has errors: %s" % fatal[:5])
+        self.ignored_errors += len(r.errors)
         self.builds += 1
         tree = r.files["c08uni"]
         info = tree.names["Scope"].node
@@ -371,37 +383,76 @@ def iset(s: Iterable[int]) -> str:
     return "{" + ",".join(str(i) for i in sorted(s)) + "}"
 
 
-def write_obs_module(d: str, terms: list[Term], tb: dict[str, Any]) -> None:
-    """Lattice.tla, MC_Lattice.tla, the config and a generated LatticeObs.tla (the tables) in d."""
+def write_obs_module(d: str, terms: list[Term], tb: dict[str, Any], rows: tuple[int, int] | None = None,
+                     simp_idx: list[int] | None = None) -> dict[str, Any]:
+    """Lattice.tla, MC_Lattice.tla, the config and a generated LatticeObs.tla (the tables) in d.
+
+    rows = (lo, hi): only the block of rows lo..hi (and the simplifications simp_idx) is written; the
+    observed types the block does not mention are left out and the others renumbered (terms keep
+    1..N).  Returns the maps needed to read TLC's answer: local id -> global id, local simp index."""
     N, M = tb["N"], tb["M"]
+    lo, hi = rows or (1, N)
+    simp_idx = list(range(len(tb["simp"]))) if simp_idx is None else simp_idx
+    used = set(range(1, N + 1))
+    for i in range(lo, hi + 1):
+        used.update(tb["join"][i][1:]); used.update(tb["meet"][i][1:])
+    for k in simp_idx:
+        o = tb["simp"][k]
+        used.add(o["raw"]); used.update(o["res"])
+    used.discard(0)
+    l2g = [0] + list(range(1, N + 1)) + sorted(x for x in used if x > N)
+    g2l = {g: l for l, g in enumerate(l2g) if l}
+    g2l[0] = 0
+    ML = len(l2g) - 1
+
+    def loc(ids: Iterable[int]) -> str:
+        return iset(g2l[x] for x in ids if x in g2l)
+
     for fn in ("Lattice.tla", "MC_Lattice.tla", "MC_Lattice_Laws.cfg"):
         shutil.copy(os.path.join(SPEC, fn), d)
     with open(os.path.join(d, "LatticeObs.tla"), "w") as f:
         w = f.write
-        w("---- MODULE LatticeObs ----\n")
-        w("N == %d\nM == %d\n" % (N, M))
+        w("---- MODULE LatticeObs ----\nEXTENDS Naturals\n")
+        w("N == %d\nM == %d\nSRange == %d..%d\n" % (N, ML, lo, hi))
         w("AnyFree == %s\n" % iset(tb["anyfree"]))
         w("TermOf == <<\n%s\n>>\n" % ",\n".join(tla_term(t) for t in terms))
-        w("SubRow == <<\n%s\n>>\n" % ",\n".join(iset(tb["sub"][i]) for i in range(1, M + 1)))
-        w("AskedRow == <<\n%s\n>>\n" % ",\n".join(iset(tb["asked"][i]) for i in range(1, M + 1)))
+        w("SubRow == <<\n%s\n>>\n" % ",\n".join(loc(tb["sub"][l2g[i]]) for i in range(1, ML + 1)))
+        w("AskedRow == <<\n%s\n>>\n" % ",\n".join(loc(tb["asked"][l2g[i]]) for i in range(1, ML + 1)))
         w("PSubRow == <<\n%s\n>>\n" % ",\n".join(iset(tb["psub"][i]) for i in range(1, N + 1)))
         w("SameRow == <<\n%s\n>>\n" % ",\n".join(iset(tb["same"][i]) for i in range(1, N + 1)))
         for name, key in (("JoinT", "join"), ("MeetT", "meet")):
             w("%s == <<\n%s\n>>\n" % (name, ",\n".join(
-                "<<" + ",".join(str(x) for x in tb[key][i][1:]) + ">>" for i in range(1, N + 1))))
+                ("<<" + ",".join(str(g2l[x]) for x in tb[key][i][1:]) + ">>") if lo <= i <= hi else "<<>>"
+                for i in range(1, N + 1))))
         recs = []
-        for o in tb["simp"]:
-            res = "{" + ", ".join("[r |-> %d, perm |-> <<%s>>]" % (r, ",".join(map(str, p))) for r, p in sorted(o["res"].items())) + "}"
-            recs.append("[items |-> <<%s>>, raw |-> %d, res |-> %s]" % (",".join(map(str, o["items"])), o["raw"], res))
+        for k in simp_idx:
+            o = tb["simp"][k]
+            res = "{" + ", ".join("[r |-> %d, perm |-> <<%s>>]" % (g2l[r], ",".join(map(str, p))) for r, p in sorted(o["res"].items())) + "}"
+            recs.append("[items |-> <<%s>>, raw |-> %d, res |-> %s]" % (",".join(map(str, o["items"])), g2l[o["raw"]], res))
         w("SimpObs == <<\n%s\n>>\n" % ",\n".join(recs))
         w("====\n")
+    return {"l2g": l2g, "simp_idx": simp_idx, "rows": (lo, hi), "observed": ML}
+
+
+def globalise(viol: list[dict[str, Any]], maps: dict[str, Any]) -> list[dict[str, Any]]:
+    """Violation records of one block, in the numbering of the whole table."""
+    out = []
+    l2g = maps["l2g"]
+    for x in viol:
+        at = list(x["at"])
+        if x["law"] == "simplify":
+            at = [maps["simp_idx"][at[0] - 1] + 1, l2g[at[1]], l2g[at[2]]]
+        else:
+            at = [l2g[i] for i in at]
+        out.append({"law": x["law"], "at": at})
+    return out
 
 
 _RE_COV2 = re.compile(r"^<(\w+) line \d+, col \d+ to line \d+, col \d+ of module (\w+)(?: \([\d ]+\))?>: (\d+):(\d+)")
 
 
-def run_laws(d: str, workers: int, timeout: int) -> Any:
-    r = tlc("MC_Lattice", "MC_Lattice_Laws.cfg", cwd=d, workers=workers, timeout=timeout, heap="5g", extra=["-continue"])
+def run_laws(d: str, workers: int, timeout: int, heap: str = "4g") -> Any:
+    r = tlc("MC_Lattice", "MC_Lattice_Laws.cfg", cwd=d, workers=workers, timeout=timeout, heap=heap, extra=["-continue"])
     if r.error:
         raise MachineryError("TLC on the observation tables: %s\n%s" % (r.error, r.out[-1500:]))
     for line in r.out.splitlines():
@@ -516,9 +567,10 @@ def confirm_and_minimise(world: World, real: Real, cases: list[tuple[str, tuple[
         origin[k] = [k]
     unreproduced: list[str] = []
     observed: dict[str, str] = {}
+    frozen: set[str] = set()     # reproduced once but not again (answers that depend on hidden state): kept as they are
     first = True
     for _ in range(max_rounds):
-        cand: dict[str, list[tuple[Term, ...]]] = {k: reductions(law, ts) for k, (law, ts) in current.items()}
+        cand: dict[str, list[tuple[Term, ...]]] = {k: ([] if k in frozen else reductions(law, ts)) for k, (law, ts) in current.items()}
         need: dict[str, None] = {}
         for k, (law, ts) in current.items():
             for x in ts:
@@ -532,13 +584,18 @@ def confirm_and_minimise(world: World, real: Real, cases: list[tuple[str, tuple[
         nxt: dict[str, tuple[str, tuple[Term, ...]]] = {}
         changed = False
         for k, (law, ts) in current.items():
+            if k in frozen:
+                nxt[k] = (law, ts)
+                continue
             bad, what = real.violated(law, [ty[render(x)] for x in ts])
             evals += 1
             if not bad:
                 if first:
                     unreproduced.append(k)
                     continue
-                raise MachineryError("violation %s did not reproduce in a later build" % k)
+                frozen.add(k)
+                nxt[k] = (law, ts)
+                continue
             new = None
             for c in cand[k]:
                 evals += 1
@@ -569,7 +626,7 @@ def confirm_and_minimise(world: World, real: Real, cases: list[tuple[str, tuple[
         sk = shape_key(law, ts)
         if sk not in res:      # the smallest minimal instance represents its shape
             res[sk] = {"law": law, "terms": [render(x) for x in ts], "observed": observed.get(k, ""),
-                       "instances": 0, "minimal_instances": [], "examples": []}
+                       "instances": 0, "minimal_instances": [], "examples": [], "unstable": k in frozen}
         res[sk]["instances"] += len(origin.get(k, []))
         res[sk]["minimal_instances"].append(k)
         res[sk]["examples"] += origin.get(k, [])[:2]
@@ -640,6 +697,7 @@ class CacheWorld:
         self.recneg: dict[int, set[int]] = {}
         self.child: dict[int, set[int]] = {}
         self.groups: list[set[int]] = []
+        self.unaskable: set[int] = set()
         self.fresh_evals = 0
 
     # ---- identification
@@ -666,7 +724,14 @@ class CacheWorld:
         self.ts._subtype_caches.clear()
         self.ts._negative_subtype_caches.clear()
 
-    def ask(self, kind: tuple[bool, ...], l: Any, r: Any) -> bool:
+    def ask(self, kind: tuple[bool, ...], l: Any, r: Any) -> Any:
+        """The real answer (a bool), or 'raised <exception type>' when the real function raises."""
+        try:
+            return self._ask(kind, l, r)
+        except Exception as e:
+            return "raised %s" % type(e).__name__
+
+    def _ask(self, kind: tuple[bool, ...], l: Any, r: Any) -> bool:
         ctx = self.Ctx(ignore_type_params=kind[2], ignore_pos_arg_names=kind[3], ignore_declared_variance=kind[4],
                        always_covariant=kind[5], ignore_promotions=kind[6], erase_instances=kind[7],
                        keep_erased_types=kind[8])
@@ -755,6 +820,14 @@ class CacheWorld:
                 seen_children.clear()
                 own.clear()
                 del stack[:]
+                if (kind[1] and (kind[3] or kind[4])) or (not kind[1] and (kind[7] or kind[8])):
+                    # a key that no query can have (SubtypeContext.check_context): it can only have been
+                    # RECORDED, by a build_subtype_kind that does not return the flags of the query.
+                    # Not askable; it keeps the polarity it is recorded with (decided below).
+                    self.truth[e] = False
+                    self.recpos[e], self.recneg[e], self.child[e] = set(), set(), set()
+                    self.unaskable.add(e)
+                    continue
                 self.truth[e] = self.ask(kind, l, r)
                 self.fresh_evals += 1
                 pos, neg, unknown = self.contents()
@@ -779,11 +852,14 @@ class CacheWorld:
         # the next such query would be answered from the memo, wrongly (confirmed by replay in main)
         self.unsound: list[tuple[int, int]] = []
         for e in range(1, len(self.entries) + 1):
+            for d in self.recpos[e] & self.unaskable:
+                self.truth[d] = True
+        for e in range(1, len(self.entries) + 1):
             for d in sorted(self.recpos[e]):
-                if not self.truth[d]:
+                if self.truth[d] is not True:
                     self.unsound.append((e, d))
             for d in sorted(self.recneg[e]):
-                if self.truth[d]:
+                if self.truth[d] is not False:
                     self.unsound.append((e, d))
         # a group = the top pair's entries plus everything reachable from them
         for gi, grp in enumerate(self.groups):
@@ -807,7 +883,7 @@ class CacheWorld:
             w("NE == %d\n" % NE)
             w("EntKind == <<\n%s\n>>\n" % ",\n".join(tla_value(list(k)) for k, _ in self.entries))
             w("EntPair == <<%s>>\n" % ", ".join(str(p) for _, p in self.entries))
-            w("Truth == %s\n" % iset(e for e in range(1, NE + 1) if self.truth[e]))
+            w("Truth == %s\n" % iset(e for e in range(1, NE + 1) if self.truth[e] is True))
             w("RecPos == <<\n%s\n>>\n" % ",\n".join(iset(self.recpos[e]) for e in range(1, NE + 1)))
             w("RecNeg == <<\n%s\n>>\n" % ",\n".join(iset(self.recneg[e]) for e in range(1, NE + 1)))
             w("Child == <<\n%s\n>>\n" % ",\n".join(iset(self.child[e]) for e in range(1, NE + 1)))
@@ -884,7 +960,7 @@ class CacheWorld:
 # clean dimensions only: the finding-prone shapes (named tuples, callables with non-positional
 # parameters, contravariant arguments related through Any / promotions) are enumerated
 # deterministically by the specification's universe, never sampled
-DEEP_UNARY = ["Inv", "Co", "VarTuple", "Opt", "Seq", "PG", "Contra"]
+DEEP_UNARY = ["Inv", "Co", "VarTuple", "Opt", "Seq", "PG", "Contra", "PContra"]
 DEEP_BINARY = ["Tuple2", "Union", "FnPos", "TuplePre"]
 DEEP_TYPE_ARGS = ["A", "B", "C", "D", "E", "int", "str", "T", "TB", "ImplA", "Col", "P"]
 CONTRA_SAFE_ATOMS = {"A", "B", "C", "D", "E", "str", "None", "T", "TB", "ImplA", "ImplB", "P", "Col", "TD1", "TD2", "object"}
@@ -905,7 +981,7 @@ def _atoms_of(t: Term) -> set[str]:
 
 
 def random_deep_terms(base: list[Term], n: int, rnd: random.Random) -> list[Term]:
-    clean = [t for t in base if _clean_sub(t) and "Contra" not in json.dumps(t)]
+    clean = [t for t in base if _clean_sub(t) and "Contra" not in json.dumps(t)]  # (also excludes PContra)
     have = {tkey(t) for t in base}
     out: list[Term] = []
     guard = 0
@@ -918,7 +994,7 @@ def random_deep_terms(base: list[Term], n: int, rnd: random.Random) -> list[Term
         elif r < 0.55:
             op = rnd.choice(DEEP_UNARY)
             a = rnd.choice(clean)
-            if op == "Contra" and not _atoms_of(a) <= CONTRA_SAFE_ATOMS:
+            if op in ("Contra", "PContra") and not _atoms_of(a) <= CONTRA_SAFE_ATOMS:
                 continue
             t = {"op": op, "args": [a]}
         else:
@@ -976,6 +1052,7 @@ def table_selftest(real: Real, terms: list[Term], types: list[Any]) -> dict[str,
     tb = compute_tables(real, sub_types, [[names.index("B") + 1, names.index("E") + 1]])
     a, o = names.index("A") + 1, names.index("object") + 1
     out = {}
+    recs: dict[str, set[str]] = {}
     for label, corrupt in (("intact", False), ("A-not-below-object", True)):
         if corrupt:
             tb["sub"][a].discard(o)
@@ -983,7 +1060,10 @@ def table_selftest(real: Real, terms: list[Term], types: list[Any]) -> dict[str,
         write_obs_module(d, sub_terms, tb)
         r = run_laws(d, 2, 600)
         out[label] = sorted({v["law"] for v in r.json_lines("VIOL")})
-    if out["intact"] or not {"transitive", "join-left"} & set(out["A-not-below-object"]):
+        recs[label] = {json.dumps(v, sort_keys=True) for v in r.json_lines("VIOL")}
+    # the corruption must be noticed: new violation records that mention both A and object
+    new = [json.loads(x) for x in recs["A-not-below-object"] - recs["intact"]]
+    if not any(a in v["at"] and o in v["at"] for v in new) or not recs["intact"] <= recs["A-not-below-object"]:
         raise MachineryError("law checker self-test failed: %r" % out)
     return out
 
@@ -1040,13 +1120,11 @@ def main(argv: list[str]) -> int:
     idx = {tkey(t): i for i, t in enumerate(terms, 1)}
     item_lists = [[idx[tkey(a)] for a in it["args"]] for it in items]
     N = len(terms)
-    # pairs: all of them (quick) or a seeded sample of 20,000 (thorough; every raw union is one more
-    # observed type and TLC has to hold the tables in memory); both orders are permutations
+    # pairs: a seeded sample of 6,000 (quick) / 20,000 (thorough) of the N(N+1)/2 (every raw union is one
+    # more observed type and TLC has to hold the tables in memory); both orders are permutations
     all_pairs = [[i, j] for i in range(1, N + 1) for j in range(i, N + 1)]
-    if not quick:
-        rnd.shuffle(all_pairs)
-        all_pairs = sorted(all_pairs[:20000])
-    item_lists += all_pairs
+    rnd.shuffle(all_pairs)
+    item_lists += sorted(all_pairs[:6000 if quick else 20000])
     for _ in range(1500 if quick else 6000):
         item_lists.append([rnd.randrange(1, N + 1) for _ in range(rnd.choice([3, 4]))])
     timing["generate"] = time.time() - t0
@@ -1074,14 +1152,14 @@ def main(argv: list[str]) -> int:
     dc = scratch("c08-cacheobs-")
     cw.write_obs_module(dc)
     timing["cache_extract"] = time.time() - t0
-    pool = ThreadPoolExecutor(6)
-    mc_cfgs = ["MC_SubtypeCache.cfg"] if quick else ["MC_SubtypeCache.cfg", "MC_SubtypeCache_All.cfg"]
+    pool = ThreadPoolExecutor(3)     # at most 3 TLC processes (<= 6 worker threads) next to the table computation
+    mc_cfgs = ["MC_SubtypeCache.cfg"] if quick else ["MC_SubtypeCache.cfg", "MC_SubtypeCache_3.cfg", "MC_SubtypeCache_All.cfg"]
     gen_cfgs = ["Gen_SubtypeCache_2.cfg"] if quick else ["Gen_SubtypeCache_2.cfg", "Gen_SubtypeCache_2q.cfg", "Gen_SubtypeCache_3.cfg"]
     mut_cfgs = {"Mut_SubtypeCache_NoPromotions.cfg": "AnswerIsTruth", "Mut_SubtypeCache_NoProper.cfg": "AnswerIsTruth",
                 "Mut_SubtypeCache_NoVariance.cfg": "AnswerIsTruth"}
     fut = {}
     for cfg in mc_cfgs:
-        fut[cfg] = pool.submit(tlc, "MC_SubtypeCache", cfg, cwd=dc, workers=3, timeout=3000, heap="3g")
+        fut[cfg] = pool.submit(tlc, "MC_SubtypeCache", cfg, cwd=dc, workers=2, timeout=3000, heap="3g")
     for cfg in gen_cfgs:
         fut[cfg] = pool.submit(tlc, "MC_SubtypeCache", cfg, cwd=dc, workers=2, timeout=3000, coverage=False, heap="3g")
     for cfg in mut_cfgs:
@@ -1090,21 +1168,44 @@ def main(argv: list[str]) -> int:
     # ---- 4. observation tables from the real functions; TLC checks the laws on them
     tb = compute_tables(real, types, item_lists)
     timing["tables"] = time.time() - t0
-    dl = scratch("c08-obs-")
-    write_obs_module(dl, terms, tb)
-    rl = run_laws(dl, 4 if quick else 6, 3000)
+    # the table is checked in row blocks (one TLC run each; memory stays bounded in the thorough tier)
+    nblocks = 1 if quick else 6
+    bounds = [(1 + b * N // nblocks, (b + 1) * N // nblocks) for b in range(nblocks)]
+    simp_blocks = [list(range(b, len(tb["simp"]), nblocks)) for b in range(nblocks)]
+
+    def law_block(b: int) -> tuple[Any, dict[str, Any]]:
+        dl = scratch("c08-obs-")
+        maps = write_obs_module(dl, terms, tb, bounds[b], simp_blocks[b])
+        return run_laws(dl, 4 if quick else 3, 3000), maps
+
+    viol: list[dict[str, Any]] = []
+    drift: list[dict[str, Any]] = []
+    samedrift: list[dict[str, Any]] = []
+    core_terms: set[int] = set()
+    law_states = 0
+    law_cov: dict[str, list[int]] = {}
+    with ThreadPoolExecutor(1 if quick else 2) as lawpool:
+        for b, (rl, maps) in enumerate(lawpool.map(law_block, range(nblocks))):
+            lo, hi = bounds[b]
+            expect_states = 1 + (hi - lo + 1) * (N + 1) + len(simp_blocks[b])
+            if rl.distinct < expect_states or rl.never_fired():
+                raise MachineryError("law checker block %d visited %d states (at least %d expected), never fired: %s"
+                                     % (b, rl.distinct, expect_states, rl.never_fired()))
+            vb = rl.json_lines("VIOL")
+            if bool(vb) != bool(rl.violated):
+                raise MachineryError("TLC verdict %r but %d violation records" % (rl.violated, len(vb)))
+            viol += globalise(vb, maps)
+            drift += rl.json_lines("DRIFT")
+            samedrift += rl.json_lines("SAMEDRIFT")
+            core_terms |= {int(m.group(1)) for l in rl.printed for m in [re.match(r'<<"CORE", (\d+)>>', l)] if m}
+            states += rl.distinct; transitions += rl.generated
+            law_states += rl.distinct - 1
+            for a, (dd, tt) in rl.coverage.items():
+                c0 = law_cov.setdefault(a, [0, 0]); c0[0] += dd; c0[1] += tt
     timing["laws_tlc"] = time.time() - t0
-    states += rl.distinct; transitions += rl.generated
-    cov["Lattice/laws"] = dict(coverage_summary(rl), states=rl.distinct, transitions=rl.generated)
-    expect_states = 1 + N + N * N + len(tb["simp"])
-    if rl.distinct < expect_states or rl.never_fired():
-        raise MachineryError("law checker visited %d states (at least %d expected), never fired: %s" % (rl.distinct, expect_states, rl.never_fired()))
-    viol = rl.json_lines("VIOL")
-    if bool(viol) != bool(rl.violated):
-        raise MachineryError("TLC verdict %r but %d violation records" % (rl.violated, len(viol)))
-    drift = rl.json_lines("DRIFT")
-    samedrift = rl.json_lines("SAMEDRIFT")
-    core = sum(1 for l in rl.printed if l.startswith('<<"CORE"'))
+    cov["Lattice/laws"] = {"per_action": {a: {"distinct": c0[0], "total": c0[1]} for a, c0 in sorted(law_cov.items())},
+                           "never_fired": [], "states": law_states + nblocks, "blocks": nblocks}
+    core = len(core_terms)
     if core < 40:
         raise MachineryError("reference relation covers only %d terms" % core)
 
@@ -1125,6 +1226,7 @@ def main(argv: list[str]) -> int:
     cache_hist = 0
     hits = 0
     conf_problems = 0
+    answer_problems = 0
     sample_hist: list[Any] = []
     for cfg in mc_cfgs + gen_cfgs:
         r = fut[cfg].result()
@@ -1139,7 +1241,7 @@ def main(argv: list[str]) -> int:
                         "SubtypeCache.tla with the tables extracted from the implementation violates %s (%s)" % (r.violated, cfg))
         states += r.distinct; transitions += r.generated
         cov["SubtypeCache/" + cfg] = dict(coverage_summary(r), states=r.distinct, transitions=r.generated)
-        if cfg in mc_cfgs and r.never_fired():
+        if cfg in mc_cfgs and not r.violated and r.never_fired():
             raise MachineryError("actions never fired in %s: %s" % (cfg, r.never_fired()))
         if cfg in gen_cfgs:
             hists = r.json_lines("HIST")
@@ -1154,7 +1256,9 @@ def main(argv: list[str]) -> int:
                 if prob or conf:
                     short = [[st["a"], cw.describe(st["e"]) if st["a"] == "q" else st["info"]] for st in hist]
                     if prob:
-                        v.violation("cache:answer:" + json.dumps(short), {"kind": "cache", "decl": decl, "history": hist, "steps": short}, prob)
+                        answer_problems += 1
+                        if answer_problems <= 8:
+                            v.violation("cache:answer:" + json.dumps(short), {"kind": "cache", "decl": decl, "history": hist, "steps": short}, prob)
                     else:
                         conf_problems += 1
                         if conf_problems <= 3:
@@ -1179,11 +1283,11 @@ def main(argv: list[str]) -> int:
     nontriv_join = sum(1 for i in range(1, N + 1) for j in range(1, N + 1) if tb["join"][i][j] not in (i, j))
     nontriv_meet = sum(1 for i in range(1, N + 1) for j in range(1, N + 1) if tb["meet"][i][j] not in (i, j) and tb["meet"][i][j] > N)
     nontriv_simp = sum(1 for o in tb["simp"] if any(r != o["raw"] for r in o["res"]))
-    triples = rl.coverage.get("PickU", (0, 0))[0]
+    triples = law_cov.get("PickU", [0, 0])[0]
     coverage = {
         "states": states, "transitions": transitions,
-        "traces_validated_against_impl": rl.distinct - 1 + cache_hist,
-        "law_instances_checked_on_real_observations": rl.distinct - 1,
+        "traces_validated_against_impl": law_states + cache_hist,
+        "law_instances_checked_on_real_observations": law_states,
         "cache_histories_replayed": cache_hist,
         "cache_histories_with_a_memo_hit": hits,
         "terms": N, "terms_from_specification": n_spec_terms, "random_depth2_terms": len(deep),
@@ -1199,17 +1303,18 @@ def main(argv: list[str]) -> int:
                 "every permutation; cache: every behaviour TLC emits for %s; non-trivial = triples + joins that are neither argument + "
                 "meets that are a new type + simplifications that removed something + cache behaviours with a memo hit"
                 % ("Q" if quick else "T", "" if quick else " + %d seeded random depth-2 terms over the clean dimensions" % len(deep),
-                   "all pairs" if quick else "a seeded sample of 20,000 pairs", ", ".join(gen_cfgs)),
+                   "a seeded sample of %d pairs" % (6000 if quick else 20000), ", ".join(gen_cfgs)),
         "law_violations_listed_by_tlc": len(viol), "minimal_failing_inputs": len(minimal), "not_reproduced": unrep,
         "model_drift": {"reference_relation_core_terms": core, "core_pairs_checked": core * core,
                         "disagreements": [[render(terms[d["s"] - 1]), render(terms[d["t"] - 1]), d["ref"]] for d in drift[:20]],
                         "n_disagreements": len(drift),
                         "is_same_type_vs_mutual_proper": len(samedrift),
                         "cache_conformance_mismatches": conf_problems},
+        "cache_histories_with_wrong_answer": answer_problems,
         "cache_model": {"pairs": cw.pair_name, "entries": len(cw.entries), "fresh_evaluations": cw.fresh_evals,
                         "flags_discriminated_by_n_pairs": disc, "spec_mutants_rejected": muts},
         "law_checker_selftest": selftest,
-        "builds": world.builds,
+        "builds": world.builds, "type_errors_in_generated_module_ignored": world.ignored_errors,
         "samples": [{"term": render(terms[len(terms) // 3]), "type": str(types[len(terms) // 3])},
                     {"join": [render(terms[1]), render(terms[4]), str(T[tb["join"][2][5]])]},
                     {"cache_behaviour": sample_hist[:1]}],
@@ -1235,4 +1340,9 @@ if __name__ == "__main__":
         sys.exit(main(sys.argv[1:]))
     except MachineryError as e:
         print("MACHINERY FAILURE:", e, file=sys.stderr)
+        sys.exit(2)
+    except Exception:  # a bug of the harness must never look like a verdict (an uncaught exception exits 1)
+        import traceback
+        traceback.print_exc()
+        print("MACHINERY FAILURE: unexpected exception in the driver", file=sys.stderr)
         sys.exit(2)
